@@ -544,3 +544,5 @@ package json
 //@     invariant 0 <= rangeindex + 1 && rangeindex + 1 <= len(vals) - 1
 //@     invariant lex(dst) == 0 && mode(dst) == ARR_NEXT && stk(dst) == pushstk(mode(dst0), stk(dst0)) && prefix(dst, dst0) && len(dst) > len(dst0)
 //@     decreases len(vals) - 1 - (rangeindex + 1)
+
+//@ config JSONMarshalFunc != nil
